@@ -138,6 +138,21 @@ pub fn strategy(with_close: bool) -> BoxedStrategy<IterCase> {
                 others[0].insert(0, IOp::AddSignal { sig });
                 others[1].insert(0, IOp::AddSignal { sig });
             }
+            // another case in eight: one thread adds a signal nobody watches yet while another
+            // thread is already delivering it
+            if schedule.len() % 8 == 5 {
+                let sig = polls % 3;
+                init.retain(|s| *s % 3 != sig);
+                if init.is_empty() {
+                    init.push((sig + 1) % 3);
+                }
+                if others.len() < 2 {
+                    others.push(vec![]);
+                }
+                others[0].insert(0, IOp::AddSignal { sig });
+                others[1].insert(0, IOp::Deliver { sig });
+                others[1].insert(1, IOp::Deliver { sig });
+            }
             let n = others.len() + 1;
             let nested = nested.into_iter().map(|(t, at, sig, on)| INested { thread: t % n, at, sig, on }).collect();
             IterCase { exf, consumer, polls, init, others, nested, schedule, late, failed_ctor, handoff, stretch, plain_first }
